@@ -95,6 +95,48 @@ func callsInNamed(fn *ssa.Function, names ...string) []*CallSite {
 	return out
 }
 
+// reachesExitAvoiding: some path from s reaches a function exit without entering b.
+func reachesExitAvoiding(s, b *ssa.BasicBlock) bool {
+	seen := map[*ssa.BasicBlock]bool{}
+	st := []*ssa.BasicBlock{s}
+	for len(st) > 0 {
+		x := st[len(st)-1]
+		st = st[:len(st)-1]
+		if x == b || seen[x] {
+			continue
+		}
+		seen[x] = true
+		if len(x.Succs) == 0 {
+			return true
+		}
+		st = append(st, x.Succs...)
+	}
+	return false
+}
+
+// controlConds returns the If instructions block b is control dependent on:
+// b post-dominates one successor of the If but not the If itself.
+func controlConds(b *ssa.BasicBlock) []*ssa.If {
+	var out []*ssa.If
+	for _, blk := range b.Parent().Blocks {
+		if len(blk.Instrs) == 0 || blk == b {
+			continue
+		}
+		iff, ok := blk.Instrs[len(blk.Instrs)-1].(*ssa.If)
+		if !ok {
+			continue
+		}
+		pd := func(s *ssa.BasicBlock) bool { // b post-dominates s
+			return (s == b || reaches(s, b)) && !reachesExitAvoiding(s, b)
+		}
+		p0, p1 := pd(blk.Succs[0]), pd(blk.Succs[1])
+		if p0 != p1 {
+			out = append(out, iff)
+		}
+	}
+	return out
+}
+
 // condTrueRegion: block b is dominated by an edge on which some condition
 // satisfying pred has the given value (after stripping negations).
 func condRegion(b *ssa.BasicBlock, pred func(cond ssa.Value, val bool) bool) bool {
